@@ -12,7 +12,7 @@
   A thread whose next action needs a lock owned by another thread is not enabled.
 
   Modelled programs: put_with_weight / put_with_weight_and_ttl, delete, get, total_weight_used, put_or_update (clients);
-  every command kind (worker); one tick (sweeper); one batch (consumer). `shutdown` stays in Layer A.
+  every command kind (worker); one tick (sweeper); one batch (consumer); `shutdown()` in its twelve actions.
 -/
 import CachedModel.State
 
@@ -312,8 +312,11 @@ def sweeperAct (b : BState) (visit : Option Nat) : Except String BState :=
            .ok { b with g := { g with ttl := g.ttl.del (shard, id) }, sw := .kwRemove now shard rest' id }
          else .ok (sweepNext b now shard rest'))
   | .kwRemove now shard rest id =>
+    -- `key_weights.remove_if(key_id, ..)`: the condition reads the store while the entry of the key id is held (fix 36c87dc)
     (match g.adm.kw.get? id with
-     | some wk => .ok { b with g := { g with adm := { g.adm with kw := g.adm.kw.del id } }, sw := .sub now shard rest id wk }
+     | some wk =>
+       if unexpiredWithId g wk.key id then .ok (sweepNext b now shard rest)
+       else .ok { b with g := { g with adm := { g.adm with kw := g.adm.kw.del id } }, sw := .sub now shard rest id wk }
      | none => .ok (sweepNext b now shard rest))
   | .sub now shard rest id wk =>
     if !wuFree b .sweeper then .error "not enabled: weight_used is locked"
@@ -455,10 +458,10 @@ def clientAct (b : BState) (i : Nat) (o : Oracle) : Except String (BState × Ora
            let e' : Entry := { e with expiry := newExpiry, value := v.getD e.value }
            .ok (setClient { b with g := { g with store := g.store.set k e' } } i (.upWeightOf e.id uw e.expiry newExpiry), o))
     | .upWeightOf id uw old new =>
-      let existing : Int := match g.adm.kw.get? id with | some wk => wk.weight | none => 0
+      let existing : Option Int := (g.adm.kw.get? id).map (·.weight)      -- a key id no longer charged has no weight to adjust (fix c86efeb)
       (match typeOfExpiryUpdate old new with
-       | .added n => .ok (setClient b i (.upTtlPut id n (match uw with | some x => some x | none => some (existing + g.cfg.ttlEntry))), o)
-       | .deleted e => .ok (setClient b i (.upTtlDelete id e (match uw with | some x => some x | none => some (existing - g.cfg.ttlEntry))), o)
+       | .added n => .ok (setClient b i (.upTtlPut id n (match uw with | some x => some x | none => existing.map (· + g.cfg.ttlEntry))), o)
+       | .deleted e => .ok (setClient b i (.upTtlDelete id e (match uw with | some x => some x | none => existing.map (· - g.cfg.ttlEntry))), o)
        | .updated e n => .ok (setClient b i (.upTtlRemove id e n uw), o)
        | .nothing => .ok (upAfterIndex b i id uw, o))
     | .upTtlPut id e uw =>
